@@ -47,7 +47,10 @@ package middlewares
 // wrapBodyReader only: it wraps the reader that is already installed (or the raw body stream when none
 // is) and installs the result. No middleware installs a body reader directly.
 //@ func wrapBodyReader
-//@   at-call dynamic {C02,C06} [wraps-the-installed-reader] requires (ok ==> $0 == ctx.Locals("body-reader")) && (!ok ==> $0 == ctx.Request().BodyStream())
+//@   at-call dynamic {C02,C06} [wraps-the-installed-reader] requires (ok ==> $0 == ctx.Locals("body-reader")) \
+//@        && (!ok ==> $0 == ctx.Request().BodyStream() || (ctx.Request().BodyStream() == nil && called("bytes.NewReader") && $0 == iface(result("bytes.NewReader", 0))))
+// C20: a request without a body has no body stream; what the wrappers are handed is never nil
+//@   at-call dynamic {C20} [the-reader-handed-to-the-wrapper-is-not-nil] requires ok || $0 != nil
 //@   at-call fiber.Ctx.Locals {C02,C06} [installs-the-wrapper] when len($2) > 0 :: requires $1 == iface("body-reader") && len($2) == 1 && $2[0] == result("dynamic", 0)
 //@ func VerifyMD5Body$1
 //@   at-call? fiber.Ctx.Locals {C02,C06} [body-reader-only-through-wrapBodyReader] requires !($1 == iface("body-reader") && len($2) > 0)
